@@ -46,7 +46,7 @@ def confirm(name):
         # the demo was written against its author's worktree path: point it at this scratch tree
         import re
 
-        src = re.sub(r"/tmp/wt_C\d+", wt, src)
+        src = re.sub(r"/tmp/wt\d*_C\d+[a-z]?", wt, src)
         open(demo, "w").write(src)
         rc0, o0 = sh("/venv/bin/python -W ignore %s" % demo, cwd=wt, env=env, timeout=1800)
         rca, oa = sh("git apply %s" % os.path.join(d, "patch.diff"), cwd=wt)
@@ -89,6 +89,14 @@ def detect(name):
         print(name, "patch does not apply to /repo:", out[:200])
         return
     res = {}
+    # the evidence files committed under /verif must come from runs on the unchanged tree: keep them aside
+    import shutil
+
+    keep = tempfile.mkdtemp(prefix="evid_")
+    for p in props:
+        src = os.path.join(HERE, "evidence", "%s.json" % p)
+        if os.path.exists(src):
+            shutil.copyfile(src, os.path.join(keep, "%s.json" % p))
     try:
         for p in props:
             rc, out = sh("./check %s --tier quick" % p, cwd=HERE, timeout=3600)
@@ -103,6 +111,11 @@ def detect(name):
             res[p] = {"exit": rc, "violation_lines": len(lines), "fired": names}
     finally:
         sh("git -C /repo checkout -- .")
+        for p in props:
+            src = os.path.join(keep, "%s.json" % p)
+            if os.path.exists(src):
+                shutil.copyfile(src, os.path.join(HERE, "evidence", "%s.json" % p))
+        shutil.rmtree(keep, ignore_errors=True)
     m["detected_by"] = res
     save_meta(name, m)
     print("%-34s %s" % (name, {k: (v["exit"], v["fired"][:2]) for k, v in res.items()}))
